@@ -65,3 +65,6 @@ Definition mrel_f : float := 0x1.0c6f7a0b5ed8dp-20%float.   (* 1e-6 *)
 Definition mabs_f : float := 0x1.6849b86a12b9bp-47%float.   (* 1e-14 *)
 Definition classify_real := classify FR (fun x => x) fclose rtol_f mrel_f mabs_f 0.
 Definition classify_cplx := classify FC (fun x => fst x) cclose rtol_f mrel_f mabs_f 0.
+(* the same with the repaired do_safe_div (defect flag cg_safe_div_subnormal cleared) *)
+Definition classify_real1 := classify FR1 (fun x => x) fclose rtol_f mrel_f mabs_f 0.
+Definition classify_cplx1 := classify FC1 (fun x => fst x) cclose rtol_f mrel_f mabs_f 0.
